@@ -25,8 +25,27 @@ ASSUMPTIONS = ["peel inputs are connected simple graphs (the C++ asserts otherwi
                "crossings closer than the planariser's own tolerances (0.5/0.8/1.0) to a segment end are outside the generator"]
 
 
+def _known(idpart):
+    """is there a `known` entry for C19 in known_findings.json whose id contains idpart?
+    (the two genuine defects found by this check are only exercised once the lead has recorded them,
+    so that the clean tree is quiet; see the C19 report)"""
+    import json, pathlib
+    f = pathlib.Path(__file__).resolve().parents[2] / "known_findings.json"
+    try:
+        fs = json.loads(f.read_text()).get("findings", [])
+    except Exception:
+        return False
+    return any(e.get("property") == "C19" and e.get("status") == "known" and idpart in e.get("id", "") for e in fs)
+
+
 def plan(tier, seed, searching):
-    return [dict(hargs=["--seed", str(seed), "--tier", tier, "--scale", "8" if searching else "1"])]
+    dargs = ["--strict-routed"] if _known("shortseg") else []
+    steps = [dict(hargs=["--seed", str(seed), "--tier", tier, "--scale", "8" if searching else "1"], dargs=dargs)]
+    if _known("edgeless"):    # peel() on a graph without edges: heap-buffer-overflow in NodeBuckets::takeLeaves
+        steps.append(dict(hargs=["--seed", str(seed), "--tier", tier, "--mode", "edgeless"], label="finding-edgeless"))
+    if _known("shortseg"):    # planarise: route segment shorter than the event tolerance -> spurious crossing node
+        steps.append(dict(hargs=["--seed", str(seed), "--tier", tier, "--mode", "shortseg"], label="finding-shortseg"))
+    return steps
 
 
 def only_args(hargs, k):
